@@ -1081,12 +1081,6 @@ def register(an):
             return mk_option(('ref', tmp), None)
         return mk_option(item, None)
 
-    @suffix('core::iter::traits::iterator::Iterator::any', 'core::iter::traits::iterator::Iterator::all', 'core::iter::traits::iterator::Iterator::position',
-            'core::iter::traits::iterator::Iterator::rposition', 'core::iter::traits::iterator::Iterator::for_each', 'core::iter::traits::iterator::Iterator::find',
-            'core::iter::traits::iterator::Iterator::find_map', 'core::iter::traits::iterator::Iterator::fold', 'core::iter::traits::iterator::Iterator::count',
-            'core::iter::traits::iterator::Iterator::sum', 'core::iter::traits::iterator::Iterator::collect', 'core::iter::traits::iterator::Iterator::last',
-            'core::iter::traits::iterator::Iterator::max', 'core::iter::traits::iterator::Iterator::min', 'core::iter::traits::iterator::Iterator::try_fold',
-            'core::iter::traits::iterator::Iterator::try_for_each', 'core::iter::traits::iterator::Iterator::nth')
     def concrete_items(an, it, frame, st, t):
         """the items of a short iterator chain over a slice of known length, one by one (None when not enumerable: unknown length,
         a filter whose verdict on some element is not a constant, an unmodelled adapter)"""
@@ -1126,6 +1120,12 @@ def register(an):
             return out
         return None
 
+    @suffix('core::iter::traits::iterator::Iterator::any', 'core::iter::traits::iterator::Iterator::all', 'core::iter::traits::iterator::Iterator::position',
+            'core::iter::traits::iterator::Iterator::rposition', 'core::iter::traits::iterator::Iterator::for_each', 'core::iter::traits::iterator::Iterator::find',
+            'core::iter::traits::iterator::Iterator::find_map', 'core::iter::traits::iterator::Iterator::fold', 'core::iter::traits::iterator::Iterator::count',
+            'core::iter::traits::iterator::Iterator::sum', 'core::iter::traits::iterator::Iterator::collect', 'core::iter::traits::iterator::Iterator::last',
+            'core::iter::traits::iterator::Iterator::max', 'core::iter::traits::iterator::Iterator::min', 'core::iter::traits::iterator::Iterator::try_fold',
+            'core::iter::traits::iterator::Iterator::try_for_each', 'core::iter::traits::iterator::Iterator::nth')
     def m_consume(an, t, args, frame, st, c):
         nm = c['fn'].split('::')[-1]
         it = to_iter(an, args[0], frame, st)
